@@ -2,19 +2,18 @@ SPECIFICATION MCSpec
 CONSTANTS
   NAuthor = 2
   NLog = 1
-  MaxSeq = 1
-  Caps = {0, 1, 2, 3, 99}
+  MaxSeq = 2
+  Caps = {0, 1, 2, 99}
   StoreChoices <- AllPrefixes
   LogsChoices <- LogsAll
   MaxMut = 0
   MutKinds = {}
   Faults = TRUE
-  Defect_SendBlocksRecv = TRUE
+  Defect_SendBlocksRecv = FALSE
   Fix_DoneOnce = TRUE
   Fix_StreamClosure = TRUE
 INVARIANTS
   TypeOK
   C21_NoSpin
-  C21_NoOtherStuck
-  CanStepIsEnabled
-CHECK_DEADLOCK FALSE
+  C21_NeverStuck
+CHECK_DEADLOCK TRUE
